@@ -690,6 +690,11 @@ def reader_content(I, r):
 
 @stub('bytes.Equal')
 def bytes_equal(I, args, ins):
+    x, y = I.ctx.force(args[0]), I.ctx.force(args[1])
+    if isinstance(x, SymBytes) or isinstance(y, SymBytes):
+        sx = x.s if isinstance(x, SymBytes) else I.bytes_string(I.slice_elems(x))
+        sy = y.s if isinstance(y, SymBytes) else I.bytes_string(I.slice_elems(y))
+        return I.eq(sx, sy)
     a, b = I.slice_elems(args[0]), I.slice_elems(args[1])
     if len(a) != len(b):
         return False
